@@ -1,9 +1,10 @@
 /-
-  Model of pgdump/checksum.go (with fixes 04/07/08/09 of /verif/fixes/block applied).
+  Model of pgdump/checksum.go (with fixes 04/07/08/09/11 of /verif/fixes/block applied).
 
   The accounting functions take the checksum function `ck : Bytes → Nat → Nat` as a parameter
-  (page bytes, block number ↦ 16-bit checksum); `computePageChecksum` / `pgChecksumBlock` are the
-  tool's own two functions, modelled exactly with uint32 wrap-around arithmetic.
+  (page bytes, block number ↦ 16-bit checksum); `computePageChecksum` / `pgChecksumBlock` / `checksumComp` are the
+  tool's functions (since fix 11: PostgreSQL's pg_checksum_page algorithm), modelled exactly with uint32 wrap-around
+  arithmetic (`mask32`).
 
   File system = parameter: `DataDirFS` — the entries of `<dataDir>/global`, of `<dataDir>/base` and of each
   database directory, and of `<dataDir>/pg_tblspc/<spcoid>/PG_…/<dboid>`, in any order (os.ReadDir sorts by
@@ -18,14 +19,18 @@ open PgVerif
 
 def mask32 (v : Nat) : Nat := v % 2 ^ 32
 
-/-- checksum.go:checksumComp on uint32 values -/
+/-- checksum.go:checksumComp on uint32 values (fix 11): `tmp := checksum ^ value; return tmp*fnvPrime ^ (tmp >> 17)`
+— Go precedence: `*` and `>>` bind tighter than `^`; the product wraps to 32 bits -/
 def checksumComp (checksum value : Nat) : Nat :=
-  let lo := value &&& 0xFFFF
-  let hi := value >>> 16
-  let shift := checksum &&& 0x1F
-  let c := if shift > 0 then mask32 ((checksum >>> shift) ||| mask32 (checksum <<< (32 - shift))) else checksum
-  let c := c ^^^ lo
-  c ^^^ mask32 (hi <<< 1)
+  let tmp := checksum ^^^ value
+  mask32 (tmp * 16777619) ^^^ (tmp >>> 17)
+
+/-- checksum.go: `var checksumBaseOffsets = [32]uint32{…}` -/
+def checksumBaseOffsets : List Nat :=
+  [0x5B1F36E9, 0xB8525960, 0x02AB50AA, 0x1DE66D2A, 0x79FF467A, 0x9BB9F8A3, 0x217E7CD2, 0x83E13D2C,
+   0xF8D4474F, 0xE39EB970, 0x42C6AE16, 0x993216FA, 0x7B093B5D, 0x98DAFF3C, 0xF718902A, 0x0B1C9CDB,
+   0xE58F764B, 0x187636BC, 0x5D7B3BB1, 0xE73DE7DE, 0x92BEC979, 0xCCA6C0B2, 0x304A0979, 0x85AA43D4,
+   0x783125BB, 0x6CA8EAA2, 0xE407EAC6, 0x4B5CFC3E, 0x9FBF8C76, 0x15CA20BE, 0xF2CA9FD3, 0x959BD756]
 
 /-- the little-endian 32-bit words of a byte string (whole words only) -/
 def words32 : Bytes → List Nat
@@ -37,23 +42,28 @@ def pageCopy (page : Bytes) : Bytes :=
   let c := page.take 8192 ++ zeros (8192 - page.length)
   c.take 8 ++ [0, 0] ++ c.drop 10
 
-def fold16 (c : Nat) : Nat := ((c >>> 16) ^^^ (c &&& 0xFFFF)) % 65536
-
-/-- checksum.go:computePageChecksum (the function VerifyPageChecksum uses) -/
-def computePageChecksum (page : Bytes) (blockNumber : Nat) : Nat :=
-  let c := (words32 (pageCopy page)).foldl checksumComp 0
-  fold16 (c ^^^ blockNumber)
-
-/-- `sums[idx] = sums[idx]*fnvPrime ^ word` for word number `i` -/
+/-- `idx := i % nSums; sums[idx] = checksumComp(sums[idx], word)` for word number `i` -/
 def pgSumsStep (sums : List Nat) (iw : Nat × Nat) : List Nat :=
-  sums.set (iw.1 % 32) (mask32 (sums.getD (iw.1 % 32) 0 * 0x01000193) ^^^ iw.2)
+  sums.set (iw.1 % 32) (checksumComp (sums.getD (iw.1 % 32) 0) iw.2)
 
-/-- checksum.go:pgChecksumBlock (unused by the tool; any length) -/
+/-- `for j := range sums { sums[j] = checksumComp(sums[j], 0) }` -/
+def zeroRound (sums : List Nat) : List Nat := sums.map (checksumComp · 0)
+
+/-- checksum.go:pgChecksumBlock (any length; `blockNumber` is a uint32): its own copy with bytes 8, 9 zeroed, the words
+in order into partial sum `i % 32`, two rounds of zeroes, xor of the sums, `^ blockNumber`,
+`uint16(result%65535 + 1)` -/
 def pgChecksumBlock (page : Bytes) (blockNumber : Nat) : Nat :=
   let c := if page.length > 9 then page.take 8 ++ [0, 0] ++ page.drop 10 else page
   let ws := words32 c
-  let sums := ((List.range ws.length).zip ws).foldl pgSumsStep (List.replicate 32 blockNumber)
-  fold16 (sums.foldl (· ^^^ ·) 0)
+  let sums := ((List.range ws.length).zip ws).foldl pgSumsStep checksumBaseOffsets
+  let sums := zeroRound (zeroRound sums)
+  let result := sums.foldl (· ^^^ ·) 0
+  (((result ^^^ blockNumber) % 65535) + 1) % 65536
+
+/-- checksum.go:computePageChecksum (the function VerifyPageChecksum uses; fix 11): `pgChecksumBlock` of a copy of
+exactly one page with the checksum field zeroed -/
+def computePageChecksum (page : Bytes) (blockNumber : Nat) : Nat :=
+  pgChecksumBlock (pageCopy page) blockNumber
 
 /-! ### VerifyPageChecksum / VerifyFileChecksums -/
 
